@@ -191,6 +191,39 @@ func runC19(root string, c C19Case) (nontrivial bool, v *Violation) {
 				}
 				sawTOML = sawTOML || c19IsTOML(file)
 			}
+		case "recreate":
+			// the sub-directory "mine" of a configuration directory is removed and made again under the same name (a
+			// configuration pack replaced, a checkout, rsync --delete), with its files; then one of them is modified in place.
+			// The watcher learns of the new directory from an event of its own, so the modification is repeated every 100 ms
+			// until it is noticed - but noticed it must be
+			sub := filepath.Join(root, c12Dirs[op.Dir], "mine")
+			_ = os.RemoveAll(sub)
+			for _, f := range []string{"mine/nested.toml", "mine/deeper/still.toml", "mine/notes.txt"} {
+				pth := filepath.Join(root, c12Dirs[op.Dir], f)
+				_ = os.MkdirAll(filepath.Dir(pth), 0o755)
+				if err := os.WriteFile(pth, []byte("# 000000\n# padding padding padding\n"), 0o644); err != nil {
+					return false, violation("C19", "harness", "", "re-create: %v", err)
+				}
+				if c19IsTOML(f) {
+					tomlWrites++ // (written while it was created: that may or may not be noticed)
+				}
+			}
+			noticed := false
+			deadline := time.Now().Add(c19Live)
+			for !noticed && time.Now().Before(deadline) && !closed {
+				if wv := write(op.Dir, "mine/nested.toml", ""); wv != nil {
+					return false, wv
+				}
+				noticed = recv(100 * time.Millisecond)
+			}
+			if closed {
+				return true, violation("C19", "stream-ended-early", "", "the notification stream ended although the context is still live")
+			}
+			if !noticed {
+				return true, violation("C19", "missed-notification", "recreated-directory", "op %d: %s/mine was removed and made again; in-place writes to mine/nested.toml every 100 ms for %v produced no notification", i, c12Dirs[op.Dir], c19Live)
+			}
+			nontrivial = true
+			classify("sub-directory removed and made again")
 		case "series":
 			// a long series of modifications that stays below the kernel's queue limit, alternating between two .toml files so
 			// that the kernel merges nothing, while the consumer is busy (it reads again only after the series): however many
@@ -343,6 +376,9 @@ func genC19(t *rapid.T) C19Case {
 			op.Kind = "burst"
 			op.File = rapid.SampledFrom(c19Files).Draw(t, "file")
 			op.N = rapid.IntRange(1, 20).Draw(t, "burst")
+		case k == 8 && rapid.IntRange(0, 2).Draw(t, "recreate") == 0:
+			op.Kind = "recreate"
+			op.File = "mine/nested.toml"
 		case k == 8:
 			op.Kind = "series"
 			op.File = "a.toml"
@@ -381,6 +417,8 @@ func (c C19Case) Sample() interface{} {
 			s = fmt.Sprintf("write %s/%s %s", c12Dirs[o.Dir][len("hidi-config/"):], o.File, o.How)
 		case "flood":
 			s = fmt.Sprintf("flood x%d on %s/{a,device}.toml", o.N, c12Dirs[o.Dir][len("hidi-config/"):])
+		case "recreate":
+			s = fmt.Sprintf("%s/mine removed and made again, then modified", c12Dirs[o.Dir][len("hidi-config/"):])
 		case "series":
 			s = fmt.Sprintf("series x%d alternating %s/{a,device}.toml", o.N, c12Dirs[o.Dir][len("hidi-config/"):])
 		case "burst":
